@@ -170,18 +170,32 @@ def nd_oracle(meta, seed=0):
                 return False, a2.tolist(), a1.tolist(), 'op.adjoint(y, out=used buffer) differs from op.adjoint(y)'
     if not np.array_equal(_flat(x), x0):
         return False, _flat(x).tolist(), x0.tolist(), 'the input was modified'
-    if p in ('constant', 'symmetric', 'periodic', 'order0', 'order1', 'order2') and kind != 'lap' and \
-            not (p == 'order2' and m != 'central'):
-        def pdref(a, ax):
-            return np.apply_along_axis(lambda r: _ref_fd(r, m, p, c, dxs[ax]), ax, a)
-        if kind == 'pd':
-            want = pdref(np.asarray(x), meta['axis']).ravel()
-        elif kind == 'grad':
-            want = np.concatenate([pdref(np.asarray(x), a).ravel() for a in range(ndim)])
-        else:
-            want = sum(pdref(np.asarray(x[a]), a) for a in range(ndim)).ravel()
+    base = p[:-8] if p.endswith('_adjoint') else p
+    onesided_order2 = (base == 'order2' and m != 'central' and kind != 'lap')      # recorded finding
+    if not p.endswith('_adjoint') and not onesided_order2:
+        xs = [np.asarray(e) for e in x] if kind == 'div' else np.asarray(x)
+        want = _ref_nd(kind, xs, m, p, c, dxs, meta.get('axis', 0))
         if not np.array_equal(oop, want):
             return False, oop.tolist(), want.tolist(), 'value differs from the textbook stencil along the axis'
+    elif p.endswith('_adjoint') and not onesided_order2 and op.is_linear:
+        # an adjoint mode NAMES the transpose: (method, p_adjoint) is minus the transpose of the textbook
+        # operator with the mirrored method and the base mode (Laplacian: plus, same sweep)
+        akind = {'pd': 'pd', 'grad': 'div', 'div': 'grad', 'lap': 'lap'}[kind]
+        am = {'forward': 'backward', 'backward': 'forward', 'central': 'central'}[m]
+        nsc = int(np.prod(shape))
+        ncomp = ndim if akind == 'div' else 1
+        cols = []
+        for j in range(nsc * ncomp):
+            e = np.zeros(nsc * ncomp)
+            e[j] = 1.0
+            xs = [e[i * nsc:(i + 1) * nsc].reshape(shape) for i in range(ncomp)] if akind == 'div' else e.reshape(shape)
+            cols.append(_ref_nd(akind, xs, am, base, 0.0, dxs, meta.get('axis', 0)))
+        R = np.array(cols).T
+        want = (R.T if kind == 'lap' else -R.T)
+        M = _matrix(op)
+        if not np.array_equal(M, want):
+            return False, M.tolist(), want.tolist(), ('matrix differs from the transpose of the textbook operator '
+                                                     'that the adjoint mode names')
     if op.is_linear:
         M, A = _matrix(op), _matrix(op.adjoint)
         if not np.array_equal(A, M.T):
@@ -268,6 +282,19 @@ def _ref_fd(f, m, p, c, dx):
     if m == 'forward':
         return (e[2:] - e[1:-1]) / dx
     return (e[1:-1] - e[:-2]) / dx
+
+
+def _ref_nd(kind, xs, m, p, c, dxs, axis):
+    """Textbook N-d operator for a base pad mode, flat C-order result (Gradient: components concatenated)."""
+    def pd(a, ax, mm):
+        return np.apply_along_axis(lambda r: _ref_fd(r, mm, p, c, dxs[ax]), ax, a)
+    if kind == 'pd':
+        return pd(xs, axis, m).ravel()
+    if kind == 'grad':
+        return np.concatenate([pd(xs, a, m).ravel() for a in range(xs.ndim)])
+    if kind == 'div':
+        return sum(pd(xs[a], a, m) for a in range(len(xs))).ravel()
+    return sum((pd(xs, a, 'forward') - pd(xs, a, 'backward')) / dxs[a] for a in range(xs.ndim)).ravel()
 
 
 def _flat(el):
